@@ -24,7 +24,7 @@ def _h(txt):
 CID = "C09"
 VO = ["props/C09.vo"] + R.VO_MODEL
 # relativedelta.py: two-argument branch of __init__, _fix, _set_months, __add__ on a date, __radd__
-ANCHOR_RANGES = [(112, 169), (231, 262), (272, 280), (362, 405)]
+ANCHOR_RANGES = [(112, 169), (232, 263), (273, 281), (363, 406)]
 REPORT = ("diff_ok", "only_relative", "normalised", "dt2_plus_d_is_dt1", "months_maximal")
 
 
@@ -208,19 +208,18 @@ def run_distinct(cases, oracle, want_samples=0):
                "utcoffset_s_of_dt1_and_of_shifted_dt2": item["off_pair"]}
         if len(item["offsets"]) > 1:
             cnt["distinct_offset_changes"] += 1
-        reported = False
+        # model vs implementation FIRST and unconditionally: the finding's matcher may excuse the inverse-law
+        # failure only, never a changed relativedelta(dt1, dt2)
+        if model != item["r"]:
+            cnt["distinct_model_diff"] += 1
+            diffs.append(({"kind": "correspondence: model mk_diff_aware differs from relativedelta(dt1, dt2) "
+                                   "(aware operands, distinct tzinfo objects)", "input": inp,
+                           "impl": item["r"], "model": model}, False))
         if not item["back_ok"]:
             cnt["distinct_inverse_fails"] += 1
-            reported = True
             diffs.append(({"kind": "aware operands of one zone in two distinct tzinfo objects: "
                                    "dt2 + relativedelta(dt1, dt2) != dt1", "input": inp, "impl": item["r"],
                            "impl_dt2_plus_d": item["back"]}, True))
-        if model != item["r"]:
-            cnt["distinct_model_diff"] += 1
-            if not reported:
-                diffs.append(({"kind": "correspondence: model mk_diff_aware differs from relativedelta(dt1, dt2) "
-                                       "(aware operands, distinct tzinfo objects)", "input": inp,
-                               "impl": item["r"], "model": model}, False))
         if len(samples) < want_samples:
             samples.append({"distinct_tzinfo": inp, "impl": item["r"], "model": model,
                             "impl_dt2_plus_d": item["back"], "inverse_holds": item["back_ok"]})
@@ -542,8 +541,13 @@ def main():
         "partial_theorems": [t for t in props["theorems"] if t.endswith("_partial")],
         "theorem_guards": {"all C09 theorems": "both operands valid dates / naive datetimes (year 1..9999); mixed "
                            "date/datetime pairs are coerced to datetimes exactly as the constructor does"},
-        "only_differential_tested": ["aware pairs (the model has no tzinfo; a common zone object makes CPython "
-                                      "compare and subtract wall times)",
+        "reading_of_equals": "for MIXED date/datetime pairs 'dt2 + d equals dt1' is checked after promoting a date to "
+                             "the datetime at its midnight (a Python datetime never == a date); theorem "
+                             "C09_diff_inverse_uncoerced states the same reading; for operands of one kind it is literal",
+        "only_differential_tested": ["aware pairs sharing ONE tzinfo object: NO theorem (the model has no tzinfo; CPython "
+                                      "then compares and subtracts wall times)",
+                                      "aware pairs with DISTINCT tzinfo objects: modelled (RdAwareModel); theorem guard = "
+                                      "complement of the finding's matcher (C09_aware_distinct_inverse)",
                                       "rejection of non-date / mixed naive-aware operands (TypeError)"],
         "known_findings_hit": verdict.known_hits,
         "translated_source": {"translator_errors": translator_errors,
